@@ -18,6 +18,7 @@ import numpy as np
 
 import dataiter as di
 from mc import values as V
+from mc import dfbfs
 
 ID = "C09"
 TITLE = "Combining and reshaping columns preserves every untouched value"
@@ -30,8 +31,8 @@ ASSUMPTIONS = [
     "rbind of bool with int/float columns compares values by == (True == 1)",
 ]
 BOUND = {
-    "quick": "rbind: all ordered pairs of the 106-frame family (columns subset of {a,b,c} x 0..2 rows x dtypes a:int/float/bool b:str/<U c:date/datetime) + triples over a 16-frame sub-family; select/unselect/rename/colnames/cbind/update/modify: every argument on 4-column frames of 0,1,3 rows",
-    "thorough": "rbind: all ordered pairs + triples over a 36-frame sub-family; other operations as quick plus 2-row frames and two more dtype layouts",
+    "quick": "E2: BFS depth 3 over the reshaping sub-alphabet from 7 initial frames; rbind: all ordered pairs of the 106-frame family (columns subset of {a,b,c} x 0..2 rows x dtypes a:int/float/bool b:str/<U c:date/datetime) + triples over a 16-frame sub-family; select/unselect/rename/colnames/cbind/update/modify: every argument on 4-column frames of 0,1,3 rows",
+    "thorough": "E2: BFS depth 4; rbind: all ordered pairs + triples over a 36-frame sub-family; other operations as quick plus 2-row frames and two more dtype layouts",
 }
 TIME_CAP = {"quick": 300, "thorough": 3000}
 
@@ -101,6 +102,13 @@ def shards(tier):
     sf = small_family(tier)
     for i in range(len(sf)):
         out.append({"part": "rbind3", "first": i, "tier": tier})
+    depth = 3 if tier == "quick" else 4
+    for init in range(len(dfbfs.INITS)):
+        out.append({"part": "bfs", "init": init, "prefix": [], "depth": 1})
+        d, M, seen = dfbfs.build_init(init)
+        for op in dfbfs.menu(M, seen):
+            if reshape_op(0, op):
+                out.append({"part": "bfs", "init": init, "prefix": [op], "depth": depth - 1})
     layouts = [0, 1] if tier == "quick" else [0, 1, 2, 3]
     rows = [0, 1, 3] if tier == "quick" else [0, 1, 2, 3]
     for lay in layouts:
@@ -259,6 +267,14 @@ def apply_and_check(op, arg, cols, rec):
             def call():
                 d.colnames = new
                 return d
+        elif op == "cbind" and isinstance(arg, dict):
+            # several partners: the first of duplicate names wins, also among the partners
+            ps = [model_of(a) for a in arg["two"]]
+            p, pbefore = ps[0][0], V.frame_key(ps[0][0])
+            expect = list(model)
+            for _, pm_ in ps:
+                expect += [(k, v) for k, v in pm_ if k not in as_map(expect)]
+            call = lambda: d.cbind(*[x[0] for x in ps])
         elif op in ("cbind", "update"):
             p, pmodel = model_of(arg)
             pm = as_map(pmodel)
@@ -365,13 +381,26 @@ def args_for(op, cols):
                 yield list(new)
     elif op in ("cbind", "update"):
         yield from partner_specs(names, n)
+        if op == "cbind":
+            yield {"two": [[["y", "i8", [500 + i for i in range(n)]], ["z", "str", [f"A{i}" for i in range(n)]]],
+                           [["z", "str", [f"B{i}" for i in range(n)]], ["y", "i8", [600 + i for i in range(n)]], [names[0], "i8", [700 + i for i in range(n)]]]]}
     elif op == "modify":
         for target in [names[0], names[-1], "new"]:
             for form in ("scalar", "len1", "vector", "list", "callable", "wrong"):
                 yield [target, form]
 
 
+RESHAPE_OPS = {"select", "unselect", "rename", "cbind", "update", "modify", "rbind_self", "rbind_partner", "colnames",
+               "slice_cols", "slice_off_cols", "setitem", "setattr", "delitem", "pop", "popitem", "poke", "copy"}
+
+
+def reshape_op(level, op):
+    return op["op"] in RESHAPE_OPS
+
+
 def check_case(case, rec):
+    if "history" in case:
+        return dfbfs.check_history(case, rec, {"C09"})
     if case.get("part", "").startswith("rbind") or "frames" in case:
         return check_rbind(case, rec)
     return apply_and_check(case["part"], case["arg"], case["cols"], rec)
@@ -379,6 +408,15 @@ def check_case(case, rec):
 
 def run_shard(shard, rec):
     part = shard["part"]
+    if part == "bfs":
+        init, prefix = shard["init"], shard["prefix"]
+        if not prefix:
+            dfbfs.check_history({"init": init, "history": []}, rec, {"C09"})
+            dfbfs.explore(init, [], 1, rec, {"C09"}, op_filter=reshape_op)
+        else:
+            dfbfs.explore(init, prefix, shard["depth"], rec, {"C09"}, op_filter=reshape_op)
+        rec.sample({"part": "bfs", "init": dfbfs.INITS[init], "history": prefix})
+        return
     if part == "rbind2":
         fam = family()
         for i in range(shard["lo"], shard["hi"]):
